@@ -14,16 +14,19 @@ Definition ex_entry (nick : string) (idbyte : N) (flags : list string) (v6 : lis
      e_policy := option_map (map str) policy |}.
 
 
-(* C16-F1: "r", "s", "p" without "w" *)
+(* C16-F1 (repaired in /repo by c31e0a3): "r", "s", "p" without "w".  The former refutation witness is kept
+   as a regression anchor: the oracle now accepts the model's run on it. *)
 Definition f1_witness : list (doc * list bytes) :=
   [([ex_entry "a" 1 ["Running"] [] None (Some ["reject"; "1-65535"]);
      ex_entry "b" 2 ["Guard"] [] (Some "5") None], [])].
 
-Lemma p_without_w_refuted :
-  exists ds, forallb input_ok ds = true /\ forallb (fun dx => doc_p_without_w (fst dx)) ds = true
-             /\ exists vs, run ds = Some vs /\ oracle (map fst ds) vs = false.
+Lemma p_without_w_now_accepted :
+  forallb input_ok f1_witness = true
+  /\ existsb (fun e => match e_bw e, e_policy e with None, Some _ => true | _, _ => false end)
+             (flat_map fst f1_witness) = true
+  /\ exists vs, run f1_witness = Some vs /\ oracle (map fst f1_witness) vs = true.
 Proof.
-  exists f1_witness. split; [vm_compute; reflexivity|]. split; [vm_compute; reflexivity|].
+  split; [vm_compute; reflexivity|]. split; [vm_compute; reflexivity|].
   eexists. split; [vm_compute; reflexivity|]. vm_compute. reflexivity.
 Qed.
 
@@ -39,14 +42,14 @@ Proof.
   eexists. split; [vm_compute; reflexivity|]. vm_compute. reflexivity.
 Qed.
 
-(* the oracle accepts the model on every history outside the two finding classes *)
+(* the oracle accepts the model on every history outside the class of C16-F2 *)
 
 Lemma history_ok_case_ok ds : history_ok ds = true -> forallb case_ok ds = true.
 Proof.
   unfold history_ok. intros H. apply forallb_forall. intros dx Hdx. rewrite forallb_forall in H. specialize (H dx Hdx).
   unfold case_ok, input_ok in *.
   repeat match type of H with (_ && _) = true => let H' := fresh "K" in apply andb_true_iff in H as [H H'] end.
-  now rewrite H, K, K0, K1.
+  now rewrite H, K, K0.
 Qed.
 
 Lemma oracle_holds_partial ds : ds <> [] -> history_ok ds = true ->
@@ -55,11 +58,11 @@ Proof. intros Hne H. apply run_oracle_ok; [assumption|now apply history_ok_case_
 
 (* the parser alone: every well-formed document is read back entry by entry, from any of the
    states a previous document can leave *)
-Lemma parser_reads_document_partial d q rest :
-  forallb wf_entry d = true -> doc_p_without_w d = false -> good_state q = true ->
+Lemma parser_reads_document d q rest :
+  forallb wf_entry d = true -> good_state q = true ->
   feed {| ps := q; attrs := None |} (render_doc d ++ rest) =
   let '(s2, o2, e2) := feed (doc_end {| ps := q; attrs := None |} d) rest in (s2, doc_out None d ++ o2, e2).
-Proof. intros W Hf Hq. apply feed_doc; [now apply wf_doc_parts|assumption|assumption]. Qed.
+Proof. intros W Hq. apply feed_doc; [now apply wf_doc_parts|assumption]. Qed.
 
 Lemma parser_emits_all d s : doc_out (attrs s) d ++ emit_pending (attrs (doc_end s d)) = emit_pending (attrs s) ++ map kw_of d.
 Proof. apply doc_out_all. Qed.
@@ -88,7 +91,7 @@ Definition ex_history : list (doc * list bytes) :=
   [([ex_entry "x" 1 ["Guard"; "Running"] ["[::1]:9001"] (Some "100") (Some ["reject"; "1-65535"]);
      ex_entry "x" 2 ["Authority"] [] None None;
      ex_entry "y" 3 ["Running"] [] (Some "7") None], [str "zzz"]);
-   ([ex_entry "x" 1 ["Running"] [] None None; ex_entry "y" 3 ["Guard"] ["[::2]:1"; "[::3]:2"] (Some "8") None], []);
+   ([ex_entry "x" 1 ["Running"] [] None (Some ["accept"; "80"]); ex_entry "y" 3 ["Guard"] ["[::2]:1"; "[::3]:2"] (Some "8") None], []);
    ([], [str "x"])].
 
 Lemma ex_history_ok : ex_history <> [] /\ history_ok ex_history = true.
